@@ -39,6 +39,17 @@ pub fn cases(rng: &mut Rng, tier: &str) -> (Vec<Case>, bool) {
                     let id = next_id;
                     next_id += 1;
                     let sep = rng.pick(&["", " ", "  "]);
+                    if rng.chance(1, 8) {
+                        // a body of statement separators only is a stored line like any other (it is not a deletion)
+                        let c = rng.range(1, 3);
+                        let body = vec![":"; c].join(rng.pick(&["", " "]));
+                        let op = start(&format!("{}{}{}", num, sep, body));
+                        sess.step(&op);
+                        ops.push(op);
+                        map.insert(num.trim().parse::<u64>().unwrap(), 9_000_000_000 + c as u64);
+                        kinds.insert("add-colons");
+                        continue;
+                    }
                     let text = format!("{}{}PRINT {}", num, sep, id);
                     // a digit directly after the number without a blank would extend the number
                     let text = if sep.is_empty() { format!("{} PRINT {}", num, id) } else { text };
